@@ -524,6 +524,14 @@ class Session:
                     find("unpicklable", f"pickling a tree failed: {type(e).__name__}: {str(e)[:200]}")
         elif op == "drop":
             self.trees.pop(last["slot"], None)
+        elif op == "close":
+            # the tree stays in its variable: loads after this go on as before (checked by the loads that follow)
+            t_ = self.trees.get(last["slot"])
+            if t_ is not None:
+                try:
+                    t_[0].close()
+                except BaseException as e:  # noqa: B902
+                    find("spurious_error", f"tree.close() raised {type(e).__name__}: {str(e)[:160]}")
         elif op == "cli":
             from . import cacherun
 
@@ -628,7 +636,7 @@ class Session:
             else:
                 self.break_cache_dir()
         # ---- purity: what may an API call change on disk?
-        if op in ("open", "load", "copy", "mutate", "drop", "cli"):
+        if op in ("open", "load", "copy", "mutate", "drop", "close", "cli"):
             for l, pl in self.place.items():
                 after = pl.listing()
                 delta = sorted(k for k in after.keys() | before_prod[l].keys() if after.get(k) != before_prod[l].get(k))
